@@ -396,3 +396,27 @@ func VerifWrapsWithBook(book bool, size int) bool {
 
 // VerifGlueConsts: the named durations of friendly.go, for the distribution tags only.
 func VerifGlueConsts() (minT, maxT, undoT time.Duration) { return minThink, maxThink, undoTimeout }
+
+// VerifHandleTell runs the real HandleTell of a Friendly ("F") or Taktician ("T") and reports what it did:
+// the commands sent, the level and the configured size afterwards (the size starts at 0).
+func VerifHandleTell(kind string, level int, inGame, fromOpponent bool, msg string) (cmds []string, newLevel int, newSize int) {
+	v := &VerifGlue{}
+	cmd := &Command{tableMem: -1, sort: true, book: true, gameTime: 20 * time.Minute}
+	client := &playtak.Commands{User: "FriendlyBot", Client: &verifGlueClient{v}}
+	who := "someone"
+	if fromOpponent {
+		who = VerifGlueOpponent
+	}
+	var g *bot.Game
+	if inGame {
+		g = verifGlueGame(tak.White, 5, tak.Config{Size: 5})
+	}
+	if kind == "F" {
+		f := &Friendly{cmd: cmd, client: client, level: level, g: g}
+		f.HandleTell(who, msg)
+		return v.Setup, f.level, cmd.size
+	}
+	t := &Taktician{cmd: cmd, client: client, g: g}
+	t.HandleTell(who, msg)
+	return v.Setup, level, cmd.size
+}
